@@ -2,6 +2,7 @@ package main
 
 import (
 	"fmt"
+	"os"
 	"path/filepath"
 	"sort"
 	"strings"
@@ -34,7 +35,7 @@ var controlExpect = []struct {
 }
 
 func runDetControls(r *Run) {
-	dir := filepath.Join(r.VerifDir, "checker", "testdata", "controls")
+	dir := controlsDir(r)
 	P2, err := LoadRepo(dir, nil, "")
 	if err != nil {
 		r.Fail("positive controls: cannot load %s: %v", dir, err)
@@ -102,7 +103,7 @@ var c20ControlExpect = []struct{ keyPart, status string }{
 
 // runC20Controls: the process-local-write detector (C20 R1) over the control package.
 func runC20Controls(r *Run) {
-	dir := filepath.Join(r.VerifDir, "checker", "testdata", "controls")
+	dir := controlsDir(r)
 	P2, err := LoadRepo(dir, nil, "")
 	if err != nil {
 		r.Fail("positive controls: cannot load %s: %v", dir, err)
@@ -136,4 +137,17 @@ func runC20Controls(r *Run) {
 		}
 	}
 	r.Count("positive controls matched (C20 R1)", nOK)
+}
+
+// controlsDir: the control package lives next to the analyser's sources. The verif directory given
+// on the command line may be a scratch one (selftest, nested thorough runs), so the location is
+// derived from the executable (<verif>/bin/haqqcheck → <verif>/checker/testdata/controls) first.
+func controlsDir(r *Run) string {
+	if exe, err := os.Executable(); err == nil {
+		d := filepath.Join(filepath.Dir(exe), "..", "checker", "testdata", "controls")
+		if _, err := os.Stat(filepath.Join(d, "go.mod")); err == nil {
+			return d
+		}
+	}
+	return filepath.Join(r.VerifDir, "checker", "testdata", "controls")
 }
